@@ -280,6 +280,15 @@ def payload_forms(ctx):
             if isinstance(e, App) and e.op == "eff:open" and e.args[0] == v:
                 g.update(dict(gs))
         ok = any("is_file" in repr(gg) and pol and any(s == v for s in subterms(gg)) for gg, pol in g.items())
+        if not ok:
+            # established inside a followed helper whose other branch raises: kept as a fact of the path that goes on, or as the
+            # (negated) condition of the raise that pre-empts it
+            facts_ = [e_.args[0] for e_ in all_effects(loops[0].args[1].args) if isinstance(e_, App) and e_.op == "eff:assume"
+                      and not (isinstance(e_.args[0], App) and e_.args[0].op == "not")]
+            facts_ += [c_.args[0] for e_ in all_effects(loops[0].args[1].args) if isinstance(e_, App) and e_.op == "eff:may_raise"
+                       for c_ in (e_.args[0].args[1].args if len(e_.args[0].args) > 1 and isinstance(e_.args[0].args[1], App) else ())
+                       if isinstance(c_, App) and c_.op == "not"]
+            ok = any("is_file" in repr(c_) and not (isinstance(c_, App) and c_.op == "not") and any(s_ == v for s_ in subterms(c_)) for c_ in facts_)
         R.check("C05-D1f payload classification", ok, "path <- the value names an existing file", mod=fi.module, node=fi.node, function=fq,
                 expected="pathlib.Path(v).is_file()", found=f"{list(g.items())}"[:200])
     # which strings are taken as literal hex: decided by evaluating the alternatives' guards on sample values that are neither a
